@@ -39,6 +39,34 @@ func c07Decoys(k int) []*fo.RawDecl {
 	}
 }
 
+// c07Probes: definitions appended to every pool that go through fc's shared lookups. Two records
+// with one field-name set (the alphabetically earlier one declared later), an *early* user of
+// the field set that depends on the first record only (so a history may place it between the two
+// records, where the literal legitimately denotes the only visible record: it is never compared)
+// and a compared user that depends on both records. A lookup result remembered across
+// definitions shows as a change of the compared user.
+func c07Probes() []fo.Decl {
+	mk := func(names string, text string) fo.Decl {
+		return &fo.RawDecl{Names: strings.Fields(names), Text: text}
+	}
+	return []fo.Decl{
+		mk("ZwPt ZwX ZwY", "type ZwPt = {ZwX: int; ZwY: int}"),
+		mk("ZwCell", "type ZwCell = {ZwX: int; ZwY: int}"),
+		mk("zwEarly", "let zwEarly () =\n  {ZwX=1; ZwY=2}"),
+		mk("zwMk", "let zwMk (c:ZwCell) =\n  {ZwX=c.ZwX + 1; ZwY=4}"),
+		mk("ZwGb ZwI ZwN", "type ZwGb<T> = {ZwI: T; ZwN: int}"),
+		mk("ZwGa", "type ZwGa<T> = {ZwI: T; ZwN: int}"),
+		mk("zwGEarly", "let zwGEarly () =\n  {ZwI=\"e\"; ZwN=2}"),
+		mk("zwGMk", "let zwGMk (c:ZwGa<string>) =\n  {ZwI=c.ZwI; ZwN=c.ZwN + 1}"),
+	}
+}
+
+// c07Uncompared: declarations whose translation legitimately depends on their position (the
+// early users of c07Probes).
+func c07Uncompared(key string) bool {
+	return strings.Contains(key, "zwEarly") || strings.Contains(key, "zwGEarly")
+}
+
 // decoy dependencies inside one decoy set (index into c07Decoys result)
 var c07DecoyDeps = map[int][]int{3: {0}, 9: {8}, 10: {1}}
 
@@ -280,7 +308,7 @@ func runC07(r *core.Run, tier string) {
 	if tier == "thorough" {
 		nPools, nHist = 400, 30
 	}
-	r.Rule("a case is one history of a pool of 20..40 top-level definitions (a generated program): a random dependency-respecting permutation, deletion of definitions nothing kept refers to, insertion of unrelated decoy definitions (records, unions, generic records and their instantiations, generic functions, package_info blocks, type ... and ... groups, _.F lambdas, matches), and cutting the sequence into 1..4 files of one fc invocation (plus a .foi argument); for every Go declaration present both in the history and in the pool's base order the text (with _vN renumbered by first occurrence, extracted with go/parser) must be identical; the set of files written must be exactly gen_X.go per X.fo and nothing for the .foi; the hook-H2 trace must show the same number of type variables allocated by the same definition in every history; non-trivial = history differs from the base order; distinct by rendered text hash")
+	r.Rule("a case is one history of a pool of 20..40 top-level definitions (a generated program): a random dependency-respecting permutation, deletion of definitions nothing kept refers to, insertion of unrelated decoy definitions (records, unions, generic records and their instantiations, generic functions, package_info blocks, type ... and ... groups, _.F lambdas, matches), and cutting the sequence into 1..4 files of one fc invocation (plus a .foi argument); every pool also holds probe definitions (two records, plain and generic, with one field-name set, an uncompared early user of the field set that may be placed between them, and a compared user after both); for every Go declaration present both in the history and in the pool's base order the text (with _vN renumbered by first occurrence, extracted with go/parser) must be identical; the set of files written must be exactly gen_X.go per X.fo and nothing for the .foi; the hook-H2 trace must show the same number of type variables allocated by the same definition in every history; non-trivial = history differs from the base order; distinct by rendered text hash")
 	r.Assume("the reference relation is over-approximated textually: a definition depends on every earlier definition one of whose identifiers occurs in it", "decoys use identifiers no pool definition contains")
 	// pools: the C01 profile with more top-level variables (their right-hand sides are parsed
 	// in the single long-lived root scope, where a leak reaches every later definition)
@@ -293,6 +321,7 @@ func runC07(r *core.Run, tier string) {
 	}
 	var jobs []job
 	for pi, c := range pools {
+		c.prog.Decls = append(c.prog.Decls, c07Probes()...)
 		hs := c07Histories(core.NewRand(r.SeedV, fmt.Sprintf("c07h/%d", pi)), c.prog, nHist, 1)
 		for _, h := range hs {
 			jobs = append(jobs, job{pi, h})
@@ -356,8 +385,8 @@ func runC07(r *core.Run, tier string) {
 		var diffs []string
 		for k, t := range o.decls {
 			bt, ok := b.decls[k]
-			if !ok {
-				continue // decoy declaration
+			if !ok || c07Uncompared(k) {
+				continue // decoy declaration, or an early probe user
 			}
 			declsCompared++
 			if bt != t && goextract.EraseRenumbered(bt) == goextract.EraseRenumbered(t) {
@@ -380,7 +409,7 @@ func runC07(r *core.Run, tier string) {
 		// H2: type variables allocated per definition
 		var tvd []string
 		for name, tv := range o.tvOf {
-			if btv, ok := b.tvOf[name]; ok {
+			if btv, ok := b.tvOf[name]; ok && !c07Uncompared(name) {
 				tvCompared++
 				if btv != tv {
 					tvd = append(tvd, fmt.Sprintf("%s: %d vs %d", name, btv, tv))
